@@ -62,11 +62,34 @@ def earlyReturn (ctx : Ctx R) (depth : R) : List Req → Bool
   | [p] => p.code == 1 && forcedSurface ctx depth
   | _ => false
 
-/-- `World::properties(point_3d, depth, properties)` -/
-def World.props3 {G : Type} [RandGen G R] (w : World R) (pt : P3 R) (depth : R) (ps : List Req) : QM G (List R) := do
+/-- the temperature entry alone, see `AreaFeature.applyTemp` -/
+def Feature.applyTemp (f : Feature R) (ctx : Ctx R) (q : Query R) (old : R) : Except Err R :=
+  match f with
+  | .area a => a.applyTemp ctx q old
+  | .plume p => p.applyTemp ctx q old
+  | .line l => l.applyTemp ctx q old
+
+/-- `world->properties(point, depth, {{{1,0,0}}})[0]` as the `tian water content` models call it from inside a query:
+`World.props3` specialised to the one-entry temperature request.  Temperature models draw no random numbers, so it is a pure
+function (the background value or the forced surface temperature with its early return, then the features in order; the
+re-imposition loop has nothing to do when the early return was not taken). -/
+def World.temperaturePure (w : World R) (pt : P3 R) (depth : R) : Except Err R :=
   let nat := w.ctx.coord.toNatural pt
   let g := w.ctx.gravity
-  let q : Query R := ⟨pt, nat, depth, g⟩
+  let q : Query R := { pt := pt, nat := nat, depth := depth, gravityNorm := g }
+  if forcedSurface w.ctx depth then .ok w.ctx.surfaceT
+  else w.features.foldlM (fun t f => f.applyTemp w.ctx q t) (adiabat w.ctx.potentialT w.ctx.alpha g w.ctx.cp depth)
+
+/-- the query as the features see it: point, natural coordinates, depth, gravity norm, and (unevaluated) the temperature the
+whole world gives there, for the models that call back into `World::properties` -/
+def World.query (w : World R) (pt : P3 R) (depth : R) : Query R :=
+  { pt := pt, nat := w.ctx.coord.toNatural pt, depth := depth, gravityNorm := w.ctx.gravity,
+    worldT := fun _ => w.temperaturePure pt depth }
+
+/-- `World::properties(point_3d, depth, properties)` -/
+def World.props3 {G : Type} [RandGen G R] (w : World R) (pt : P3 R) (depth : R) (ps : List Req) : QM G (List R) := do
+  let g := w.ctx.gravity
+  let q : Query R := w.query pt depth
   let blocks ← liftE (ps.mapM (initBlock w.ctx g depth))
   let out := blocks.flatten
   if earlyReturn w.ctx depth ps then return out
@@ -108,7 +131,7 @@ def World.props2 {G : Type} [RandGen G R] (w : World R) (pt : P2 R) (depth : R) 
 /-- `World::distance_to_plane(point, depth, name)`: the first feature with that name; `(0, 0)` if there is none;
 features other than slabs and faults throw. -/
 def World.distanceToPlane (w : World R) (pt : P3 R) (depth : R) (name : String) : Except Err (R × R) :=
-  let q : Query R := ⟨pt, w.ctx.coord.toNatural pt, depth, w.ctx.gravity⟩
+  let q : Query R := { pt := pt, nat := w.ctx.coord.toNatural pt, depth := depth, gravityNorm := w.ctx.gravity }
   match w.features.find? (fun f => f.name == name) with
   | none => .ok (0.0, 0.0)
   | some (.line l) => l.distanceToPlane w.ctx q
